@@ -192,6 +192,9 @@ func (e *SpecEnv) evalBody(stmts []ast.Stmt) Val {
 // the variable is initialised by a composite literal and never assigned outside package init.
 func (ex *Exec) globalObligations(res *Output) {
 	for _, g := range ex.cs.Globals {
+		if !ex.targetPkgs[g.PkgPath] {
+			continue
+		}
 		pk := ex.prog.Pkgs[g.PkgPath]
 		name := fmt.Sprintf("%s.global[%s]#invariant", pk.Types.Name(), g.Var)
 		oo := &OblOut{Name: name, Kind: "global", Func: pk.Types.Name() + ".<globals>", Text: g.Clause.Text, Backend: "syntactic", Solver: "syntactic", Answer: "n/a"}
